@@ -186,7 +186,9 @@ func (l *List) M__bool__() (Object, error) {
 }
 
 func (l *List) M__iter__() (Object, error) {
-	return NewIterator(Tuple(l.Items)), nil
+	// Iterate over the list itself not a snapshot of the items so
+	// that changes made to the list during the iteration are seen
+	return NewIterator(l), nil
 }
 
 func (l *List) M__getitem__(key Object) (Object, error) {
